@@ -52,19 +52,38 @@ type fbMapNamed struct {
 func mgCarriers() []mgCarrier {
 	return []mgCarrier{
 		{"map[string]int keys", func(p namePair) any { return map[string]int{p.a: 1, p.b: 2} }},
-		{"map[NamedString]any keys, nested", func(p namePair) any { return []any{map[typeuniv.NamedString]any{typeuniv.NamedString(p.a): 1, typeuniv.NamedString(p.b): nil}} }},
+		{"map[NamedString]any keys, nested", func(p namePair) any {
+			return []any{map[typeuniv.NamedString]any{typeuniv.NamedString(p.a): 1, typeuniv.NamedString(p.b): nil}}
+		}},
 		{"map[string]any behind any", func(p namePair) any { return map[string]any{"outer": map[string]any{p.a: 1, p.b: 2}} }},
 		{"embedded fallback map", func(p namePair) any { return fbMapOnly{map[string]int{p.a: 1, p.b: 2}} }},
-		{"embedded fallback map with named keys", func(p namePair) any { return &fbMapNamed{map[typeuniv.NamedString]any{typeuniv.NamedString(p.a): 1, typeuniv.NamedString(p.b): 2}} }},
-		{"embedded fallback raw value", func(p namePair) any { return fbRawOnly{jsontext.Value("{" + rawName(p.a) + ":1," + rawName(p.b) + ":2}")} }},
+		{"embedded fallback map with named keys", func(p namePair) any {
+			return &fbMapNamed{map[typeuniv.NamedString]any{typeuniv.NamedString(p.a): 1, typeuniv.NamedString(p.b): 2}}
+		}},
+		{"embedded fallback raw value", func(p namePair) any {
+			return fbRawOnly{jsontext.Value("{" + rawName(p.a) + ":1," + rawName(p.b) + ":2}")}
+		}},
 		{"embedded fallback raw value next to a field", func(p namePair) any {
 			return fbRaw{A: 1, X: jsontext.Value("{" + rawName(p.a) + ":1," + rawName(p.b) + ":2}")}
 		}},
-		{"raw value member", func(p namePair) any { return map[string]jsontext.Value{"k": jsontext.Value("{" + rawName(p.a) + ":1," + rawName(p.b) + ":2}")} }},
-		{"raw value element, nested object", func(p namePair) any { return []jsontext.Value{jsontext.Value(`[{"in":{` + rawName(p.a) + `:1,` + rawName(p.b) + `:2}}]`)} }},
+		{"raw value member", func(p namePair) any {
+			return map[string]jsontext.Value{"k": jsontext.Value("{" + rawName(p.a) + ":1," + rawName(p.b) + ":2}")}
+		}},
+		{"raw value element, nested object", func(p namePair) any {
+			return []jsontext.Value{jsontext.Value(`[{"in":{` + rawName(p.a) + `:1,` + rawName(p.b) + `:2}}]`)}
+		}},
 		{"MarshalJSONTo writing the two names as tokens", func(p namePair) any { return tokNames{p.a, p.b} }},
 		{"MarshalJSON returning the object", func(p namePair) any { return rawNames{"{" + rawName(p.a) + ":1," + rawName(p.b) + ":2}"} }},
 		{"text-marshaler keys", func(p namePair) any { return map[textName]int{{p.a, 1}: 1, {p.b, 2}: 2} }},
+		{"text-appender-only keys of string kind", func(p namePair) any { return map[appS]int{appS("1|" + p.a): 1, appS("2|" + p.b): 2} }},
+		{"text-appender-only keys of int kind", func(p namePair) any { appTexts[1], appTexts[2] = p.a, p.b; return map[appI]int{1: 1, 2: 2} }},
+		{"text-appender-only keys of uint8 kind behind any", func(p namePair) any {
+			appTexts[1], appTexts[2] = p.a, p.b
+			return []any{map[appU]any{1: nil, 2: 2}}
+		}},
+		{"text-appender-only keys of bool kind", func(p namePair) any { appTexts[0], appTexts[1] = p.a, p.b; return map[appB]int{false: 1, true: 2} }},
+		{"text-appender-only keys of struct kind", func(p namePair) any { return map[appStruct]int{{p.a, 1}: 1, {p.b, 2}: 2} }},
+		{"keys with MarshalText and AppendText, string kind", func(p namePair) any { return map[bothS]int{bothS("1|" + p.a): 1, bothS("2|" + p.b): 2} }},
 	}
 }
 
@@ -90,8 +109,50 @@ type textName struct {
 
 func (t textName) MarshalText() ([]byte, error) { return []byte(t.s), nil }
 
+// key types whose only user-defined representation is encoding.TextAppender; two distinct Go keys may append the same text
+var appTexts [3]string
+
+type appS string
+
+func (a appS) AppendText(b []byte) ([]byte, error) {
+	return append(b, a[strings.IndexByte(string(a), '|')+1:]...), nil
+}
+
+type appI int
+
+func (a appI) AppendText(b []byte) ([]byte, error) { return append(b, appTexts[a]...), nil }
+
+type appU uint8
+
+func (a appU) AppendText(b []byte) ([]byte, error) { return append(b, appTexts[a]...), nil }
+
+type appB bool
+
+func (a appB) AppendText(b []byte) ([]byte, error) {
+	if a {
+		return append(b, appTexts[1]...), nil
+	}
+	return append(b, appTexts[0]...), nil
+}
+
+type appStruct struct {
+	s  string
+	id int
+}
+
+func (a appStruct) AppendText(b []byte) ([]byte, error) { return append(b, a.s...), nil }
+
+type bothS string
+
+func (a bothS) MarshalText() ([]byte, error) {
+	return []byte(a[strings.IndexByte(string(a), '|')+1:]), nil
+}
+func (a bothS) AppendText(b []byte) ([]byte, error) {
+	return append(b, a[strings.IndexByte(string(a), '|')+1:]...), nil
+}
+
 // escapePairs: raw texts whose two names differ in spelling only (for the raw carriers).
-var escapePairs = [][2]string{{`"a"`, `"a"`}, {`"a"`, `"a"`}, {`"\ud800"`, `"\udc00"`}, {`"\ud800"`, "\"�\""}, {`"\/"`, `"/"`}, {`"A"`, `"a"`}}
+var escapePairs = [][2]string{{`"a"`, `"a"`}, {`"\u0061"`, `"a"`}, {`"\ud800"`, `"\udc00"`}, {`"\ud800"`, "\"\ufffd\""}, {`"\/"`, `"/"`}, {`"A"`, `"a"`}, {`"\u00e9"`, `"é"`}, {`"\ud83d\ude00"`, `"\uD83D\uDE00"`}}
 
 func checkMarshalGrid(ci, pi, oi int) string {
 	p := namePairs()[pi]
@@ -168,4 +229,23 @@ func marshalGrid(r *evid.Run) {
 	r.Evaluations.Add(n)
 	r.Nontrivial.Add(n)
 	r.Bound("marshal grid: %d carriers of member names (map keys of string / named-string / text-marshaler kinds, embedded fallback maps and raw values alone and next to a field, raw value members and elements, MarshalJSONTo tokens, MarshalJSON output) x %d name pairs (distinct bytes that coincide after U+FFFD substitution, and controls) x 4 Allow* combinations; %d escape-spelling pairs through the raw carriers", len(cars), len(ps), len(escapePairs))
+}
+
+// NameCarrierValues returns every carrier of member names built for every name pair (used by C02, whose oracle
+// is "a nil error implies well-formed output under the effective options").
+func NameCarrierValues() (vals []any, labels []string) {
+	for _, c := range mgCarriers() {
+		for _, p := range namePairs() {
+			vals = append(vals, c.build(p))
+			labels = append(labels, fmt.Sprintf("%s with names %q / %q", c.name, p.a, p.b))
+		}
+	}
+	return vals, labels
+}
+
+// RebuildNameCarrier rebuilds value i of NameCarrierValues (carriers of int/bool kind read a global text table
+// that the build function sets, so a value must be rebuilt right before it is marshaled).
+func RebuildNameCarrier(i int) any {
+	cs, ps := mgCarriers(), namePairs()
+	return cs[i/len(ps)].build(ps[i%len(ps)])
 }
